@@ -1,5 +1,5 @@
 """C17: text, JSON and PDF front-ends present the same figures."""
-import re, json, datetime, subprocess, binascii
+import re, os, json, datetime, subprocess, binascii
 from decimal import Decimal, ROUND_HALF_UP
 from fractions import Fraction as F
 from . import run, build, ledger, gen, compare, ledgerk as K
@@ -308,6 +308,32 @@ def check_pdf_rows(runs, txshow):
     if not miss and not left: return []
     return [("pdf transaction rows", "%d rows, e.g. extra %s" % (len(a), left[:2]), "%d rows, e.g. missing %s" % (len(b), miss[:2]))]
 
+def cli_same_as_library(ctx, cases, res):
+    import shutil
+    root = os.path.join(build.CACHE, "run", "c17cli-%d" % os.getpid()); shutil.rmtree(root, ignore_errors=True); os.makedirs(root)
+    try:
+        picked = [c for c in cases if res[c].get("ok")][:ctx.n(30, 400)]
+        ycases = []
+        for cid in picked:
+            ys = [y["year"] for y in res[cid]["report"]["years"]]
+            if ys: ycases.append({"id": cid + "@y", "op": "format", "dsl": ledger.render(cases[cid]), "year": ctx.rng.choice(ys)})
+        yres = run.run_harness(ycases); yof = {c["id"][:-2]: c["year"] for c in ycases}
+        for cid in picked:
+            wd = os.path.join(root, cid.replace(":", "_").replace("/", "_")); os.makedirs(wd, exist_ok=True)
+            open(os.path.join(wd, "in.cgt"), "w").write(ledger.render(cases[cid]))
+            runs = [([], res[cid])]
+            if cid in yof and yres.get(cid + "@y", {}).get("ok"): runs.append((["--year", str(yof[cid])], yres[cid + "@y"]))
+            for extra, lib in runs:
+                for fmtname, key in (("json", "json"), ("plain", "plain")):
+                    p = subprocess.run([build.CLI, "report", "in.cgt", "--format", fmtname] + extra, cwd=wd, stdout=subprocess.PIPE, stderr=subprocess.PIPE, text=True, env=dict(build.ENV, HOME=wd), timeout=120)
+                    ctx.evaluations += 1; ctx.count("cli_vs_library_" + fmtname + ("_year" if extra else ""), p.returncode)
+                    if p.returncode != 0 or p.stdout.rstrip("\n") != lib[key].rstrip("\n"):
+                        ctx.violation("`cgt-tool report --format %s %s` does not print what the library formatter produces (exit %d)" % (fmtname, " ".join(extra), p.returncode),
+                                      {"input_dsl": ledger.render(cases[cid]), "cli_stdout": p.stdout[-1500:], "library": lib[key][-1500:], "stderr": p.stderr[-300:]}, found_input=True)
+                        return
+    finally:
+        shutil.rmtree(root, ignore_errors=True)
+
 def k_c17(ctx):
     rng = ctx.rng
     n = ctx.n(300, 5000); npdf = ctx.n(40, 600)
@@ -350,6 +376,8 @@ def k_c17(ctx):
             ctx.disagreements_checked += 1
             ctx.violation("%s front-end shows %s: %s, expected %s" % bad[0], {"input_dsl": ledger.render(ls), "differences": [list(map(str, b)) for b in bad[:8]], "plain": r["plain"], "json": r["json"], "case_id": cid}, found_input=True)
         if len(pdf_cases) < npdf and rep["years"]: pdf_cases.append(cid)
+    # the command-line front-end prints what the library's formatters produce (all years and one tax year)
+    cli_same_as_library(ctx, cases, res)
     # PDF through the hook
     if pdf_cases:
         out = subprocess.run([build.PDF_HARNESS], input="".join(json.dumps({"id": c, "dsl": ledger.render(cases[c])}) + "\n" for c in pdf_cases),
